@@ -1,4 +1,5 @@
 import FrappyModel.Small.Discovery
+import FrappyModel.Small.DiscoveryServer
 /-
 C19 — Discovery responder: bounded well-formed answers, unkillable by datagrams.
 
@@ -357,6 +358,28 @@ def ListenerOK (n : Node) (enabled : Bool) (d : Str) : Prop :=
 
 instance (n : Node) (enabled : Bool) (d : Str) : Decidable (ListenerOK n enabled d) := by
   unfold ListenerOK; infer_instance
+
+/-! ## the server: "a TCP port it really listens on", round by round
+
+A run of the server is a sequence of rounds (start-up, serving, restart).  In each round every configured
+interface is started or fails to start; a started TCP interface serves on the port it is bound to. -/
+
+open Frappy.Discovery (Attempt StartResult) in
+/-- the TCP ports the node really listens on in a round: the ports bound by the TCP interfaces whose start
+attempt of *that* round succeeded -/
+def servedTcpPorts (attempts : List Attempt) : List Nat :=
+  attempts.filterMap (fun a =>
+    match a.result with
+    | .started b => if a.iface.scheme = ['t', 'c', 'p'] then some b else none
+    | .failed => none)
+
+/-- every port that can be announced (by any responder of the node that is running) is served -/
+def AnnouncedServed (served announceable : List Nat) : Prop := ∀ p ∈ announceable, p ∈ served
+
+instance (served announceable : List Nat) : Decidable (AnnouncedServed served announceable) := by
+  unfold AnnouncedServed; infer_instance
+
+def announcedServedB (served announceable : List Nat) : Bool := decide (AnnouncedServed served announceable)
 
 /-! ## monitors -/
 
